@@ -791,13 +791,92 @@ pub fn c08_buffers(rep: &mut Report, rng: &mut Rng, place: Place) -> u64 {
     try_new(rep, "trees and lower fully overlapping", (lo, l), (to, t), (to, w), false);
     try_new(rep, "trees extends one byte into lower", (lo, l), (to, wo - to + 1), (wo, w), false);
     try_new(rep, "lower starts inside trees", (lo, l), (to, t + 64), (to + t.saturating_sub(64).next_multiple_of(64).min(t), w), false);
+    // every memory order of the three buffers: exact sizes (valid), the earlier buffer reaching exactly one
+    // byte into the next one, and the earlier buffer containing the next one entirely
+    let mut extra = 0u64;
+    {
+        let step = (l.max(t).max(w) + pad).next_multiple_of(64);
+        let big = Buf::new(3 * step + 4 * pad, place, 0);
+        let bbase = big.ptr();
+        let bsl = |off: usize, len: usize| -> &'static mut [u8] { unsafe { std::slice::from_raw_parts_mut(bbase.add(off), len) } };
+        let lens = [l, t, w];
+        let names = ["local", "trees", "lower"];
+        let perms: [[usize; 3]; 6] = [[0, 1, 2], [0, 2, 1], [1, 0, 2], [1, 2, 0], [2, 0, 1], [2, 1, 0]];
+        for perm in perms {
+            // perm[slot] = which buffer lies in that slot
+            let place_of = |b: usize| perm.iter().position(|x| *x == b).unwrap() * step;
+            for case in 0..5usize {
+                // case 0: valid; 1/2: slot 0/1 reaches one byte into the next slot; 3/4: slot 0/1 contains the next buffer
+                let mut rng_len = [l, t, w];
+                let (slot, contain) = match case {
+                    0 => (usize::MAX, false),
+                    1 => (0, false),
+                    2 => (1, false),
+                    3 => (0, true),
+                    _ => (1, true),
+                };
+                if slot != usize::MAX {
+                    let (a, b) = (perm[slot], perm[slot + 1]);
+                    if lens[a] == 0 || lens[b] == 0 {
+                        continue;
+                    }
+                    rng_len[a] = if contain { step + lens[b] + 64 } else { step + 1 };
+                }
+                let what = match case {
+                    0 => format!("valid buffers in memory order {}<{}<{}", names[perm[0]], names[perm[1]], names[perm[2]]),
+                    _ => format!(
+                        "memory order {}<{}<{}: {} {} {}",
+                        names[perm[0]], names[perm[1]], names[perm[2]], names[perm[slot]],
+                        if contain { "contains" } else { "reaches exactly one byte into" }, names[perm[slot + 1]]
+                    ),
+                };
+                let inits: &[Init] = if case == 0 { &[Init::FreeAll, Init::AllocAll] } else { &[Init::FreeAll, Init::AllocAll, Init::Recover, Init::None] };
+                let init = inits[(extra as usize) % inits.len()];
+                extra += 1;
+                let meta = MetaData { local: bsl(place_of(0), rng_len[0]), trees: bsl(place_of(1), rng_len[1]), lower: bsl(place_of(2), rng_len[2]) };
+                let r = catch(|| LLFree::new(frames, init, &classing, meta).map(|a| a.frames()));
+                let ok = match (&r, case == 0) {
+                    (Ok(Ok(f)), true) => *f == frames,
+                    (Ok(Err(Error::Initialization)), false) => true,
+                    _ => false,
+                };
+                if !ok {
+                    let msg = format!(
+                        "LLFree::new(frames={frames}, {}, cfg={}) with {what}: got {r:?}, expected {}",
+                        crate::sut::init_name(init), cfg.name, if case == 0 { "Ok" } else { "Err(Initialization)" }
+                    );
+                    rep.violation("C08", &msg, || simple_replay("invalid", "C08", &msg, J::obj().with("frames", frames).with("what", what.as_str())));
+                }
+            }
+        }
+        // short / misaligned buffers are rejected in every initialisation mode
+        for (k, init) in [Init::AllocAll, Init::Recover, Init::None].into_iter().enumerate() {
+            extra += 1;
+            let (mut ll, mut tl, mut wl) = (l, t, w);
+            let (mut lo2, mut to2, mut wo2) = (0usize, step, 2 * step);
+            let what = match (extra as usize + k) % 4 {
+                0 if w > 0 => { wl -= 1; "lower buffer one byte short" }
+                1 if t > 0 => { tl -= 1; "trees buffer one byte short" }
+                2 => { wo2 += 8; "lower buffer misaligned by 8" }
+                _ if l > 0 => { lo2 += 32; "local buffer misaligned by 32" }
+                _ => { to2 += 16; "trees buffer misaligned by 16" }
+            };
+            let meta = MetaData { local: bsl(lo2, ll), trees: bsl(to2, tl), lower: bsl(wo2, wl) };
+            let r = catch(|| LLFree::new(frames, init, &classing, meta).map(|a| a.frames()));
+            if !matches!(r, Ok(Err(Error::Initialization))) {
+                let msg = format!("LLFree::new(frames={frames}, {}, cfg={}) with {what}: got {r:?}, expected Err(Initialization)", crate::sut::init_name(init), cfg.name);
+                rep.violation("C08", &msg, || simple_replay("invalid", "C08", &msg, J::obj().with("frames", frames).with("what", what)));
+            }
+            let _ = (&mut ll, &mut tl, &mut wl);
+        }
+    }
     if l > 0 {
         try_new(rep, "local and trees fully overlapping", (to, l), (to, t), (wo, w), false);
         try_new(rep, "local extends one byte into trees", (lo, to - lo + 1), (to, t), (wo, w), false);
         try_new(rep, "lower and local fully overlapping", (wo, l), (to, t), (wo, w), false);
         try_new(rep, "local inside lower", (wo + (w / 2) / 64 * 64, l.min(w / 2)), (to, t), (wo, w), l.min(w / 2) < l && false);
     }
-    n
+    n + extra
 }
 
 pub fn run_invalid(args: &Args) -> Report {
